@@ -5,34 +5,29 @@
 import SugarModel.Model.Generic
 namespace Sugar
 
-/-- handler table for the modelled commands; `none` = command not modelled (not: unknown to the server) -/
-def handlerOf (name : Bytes) : Option (Ctx → List Bytes → Prog Res) :=
-  let n := toLower name
-  if n == b "set" then some handleSet
-  else if n == b "mset" then some handleMSet
-  else if n == b "get" then some handleGet
-  else if n == b "mget" then some handleMGet
-  else if n == b "del" then some handleDel
-  else if n == b "persist" then some handlePersist
-  else if n == b "expiretime" || n == b "pexpiretime" then some handleExpireTime
-  else if n == b "ttl" || n == b "pttl" then some handleTTL
-  else if n == b "expire" || n == b "pexpire" then some handleExpire
-  else if n == b "expireat" || n == b "pexpireat" then some handleExpireAt
-  else if n == b "incr" then some handleIncr
-  else if n == b "decr" then some handleDecr
-  else if n == b "incrby" then some handleIncrBy
-  else if n == b "decrby" then some handleDecrBy
-  else if n == b "incrbyfloat" then some handleIncrByFloat
-  else if n == b "rename" then some handleRename
-  else if n == b "flushall" || n == b "flushdb" then some handleFlush
-  else if n == b "getdel" then some handleGetdel
-  else if n == b "getex" then some handleGetex
-  else if n == b "type" then some handleType
-  else if n == b "setrange" then some handleSetRange
-  else if n == b "strlen" then some handleStrLen
-  else if n == b "substr" || n == b "getrange" then some handleSubStr
-  else if n == b "append" then some handleAppend
-  else none
+abbrev Handler := Ctx → List Bytes → Prog Res
+
+/-- handler table for the modelled commands (lower-case command name ↦ handler model) -/
+def handlerTable : List (Bytes × Handler) := [
+  (b "set", handleSet), (b "mset", handleMSet), (b "get", handleGet), (b "mget", handleMGet),
+  (b "del", handleDel), (b "persist", handlePersist),
+  (b "expiretime", handleExpireTime), (b "pexpiretime", handleExpireTime),
+  (b "ttl", handleTTL), (b "pttl", handleTTL),
+  (b "expire", handleExpire), (b "pexpire", handleExpire),
+  (b "expireat", handleExpireAt), (b "pexpireat", handleExpireAt),
+  (b "incr", handleIncr), (b "decr", handleDecr), (b "incrby", handleIncrBy), (b "decrby", handleDecrBy),
+  (b "incrbyfloat", handleIncrByFloat), (b "rename", handleRename),
+  (b "flushall", handleFlush), (b "flushdb", handleFlush),
+  (b "getdel", handleGetdel), (b "getex", handleGetex), (b "type", handleType),
+  (b "setrange", handleSetRange), (b "strlen", handleStrLen),
+  (b "substr", handleSubStr), (b "getrange", handleSubStr), (b "append", handleAppend)]
+
+def lookupHandler (n : Bytes) : List (Bytes × Handler) → Option Handler
+  | [] => none
+  | (k, h) :: r => if k = n then some h else lookupHandler n r
+
+/-- `none` = command not modelled (not: unknown to the server) -/
+def handlerOf (name : Bytes) : Option Handler := lookupHandler (toLower name) handlerTable
 
 /-- the program a command denotes -/
 def progOf (c : Ctx) (cmd : List Bytes) : Option (Prog Res) :=
